@@ -693,3 +693,32 @@ V('c16-shared-protocol', 'C16', 'C16.GUARD', '_engine.py',
 V('c16-twin-guard-reordered', 'C16', 'C16.GUARD', LSF,
   "            self.data == data\n            and (now - _DUPLICATE_PACKET_SUPPRESSION_INTERVAL) < self.last_time\n            and self.last_message is not None\n            and not self.last_message.has_qu_question()",
   "            self.last_message is not None\n            and data == self.data\n            and now < self.last_time + _DUPLICATE_PACKET_SUPPRESSION_INTERVAL\n            and not self.last_message.has_qu_question()", expect='silent')
+
+# ---------------------------------------------------------------- C08
+V('c08-text-without-override', 'C08', 'C08.GOODBYE', CORE,
+  "        out.add_answer_at_time(info.dns_text(override_ttl=other_ttl), 0)", "        out.add_answer_at_time(info.dns_text(), 0)")
+V('c08-service-not-added', 'C08', 'C08.GOODBYE', CORE,
+  "        out.add_answer_at_time(info.dns_service(override_ttl=host_ttl), 0)\n", "")
+V('c08-addresses-never', 'C08', 'C08.GOODBYE', CORE,
+  "        if broadcast_addresses:\n            for record in info.get_address_and_nsec_records(override_ttl=host_ttl):", "        if broadcast_addresses and override_ttl is None:\n            for record in info.get_address_and_nsec_records(override_ttl=host_ttl):")
+V('c08-lookup-before-removal', 'C08', 'C08.GOODBYE', CORE,
+  "        info.set_server_if_missing()\n        self.registry.async_remove(info)\n        # If another server uses the same addresses, we do not want to send\n        # goodbye packets for the address records\n\n        assert info.server_key is not None\n        entries = self.registry.async_get_infos_server(info.server_key)",
+  "        info.set_server_if_missing()\n        assert info.server_key is not None\n        entries = self.registry.async_get_infos_server(info.server_key)\n        self.registry.async_remove(info)")
+V('c08-goodbye-ttl-1', 'C08', 'C08.GOODBYE', CORE,
+  "self._async_broadcast_service(info, _UNREGISTER_TIME, 0, broadcast_addresses)", "self._async_broadcast_service(info, _UNREGISTER_TIME, 1, broadcast_addresses)")
+V('c08-two-goodbyes', 'C08', 'C08.GOODBYE', CORE, "_REGISTER_BROADCASTS = 3", "_REGISTER_BROADCASTS = 2")
+V('c08-ttl-not-threaded', 'C08', 'C08.GOODBYE', CORE,
+  "            self.async_send(self.generate_service_broadcast(info, ttl, broadcast_addresses))", "            self.async_send(self.generate_service_broadcast(info, None, broadcast_addresses))")
+V('c08-addresses-inverted', 'C08', 'C08.GOODBYE', CORE,
+  "        broadcast_addresses = not bool(entries)", "        broadcast_addresses = bool(entries)")
+V('c08-purge-removed', 'C08', 'C08.PURGE', CORE,
+  "        self._async_remove_queued_answers(withdrawn)\n", "")
+V('c08-purge-one-queue', 'C08', 'C08.PURGE', CORE,
+  "        for queue in (self.out_queue, self.out_delay_queue):\n            queue._remove_answers_from_queue(answers)", "        for queue in (self.out_queue,):\n            queue._remove_answers_from_queue(answers)")
+V('c08-purge-all-removed', 'C08', 'C08.PURGE', CORE,
+  "        self._async_remove_queued_answers([record for record, _ in out.answers])\n", "")
+V('c08-purge-conditional', 'C08', 'C08.PURGE', CORE,
+  "        self._async_remove_queued_answers(withdrawn)\n", "        if broadcast_addresses:\n            self._async_remove_queued_answers(withdrawn)\n")
+# twins
+V('c08-twin-purge-inline', 'C08', 'C08.PURGE', CORE,
+  "        self._async_remove_queued_answers(withdrawn)\n", "        self.out_queue._remove_answers_from_queue(dict.fromkeys(withdrawn, set()))\n        self.out_delay_queue._remove_answers_from_queue(dict.fromkeys(withdrawn, set()))\n", expect='silent')
